@@ -662,10 +662,10 @@ M('c01-cmp-unsigned-length-diff', 'C01', 'src/containers/qtreetbl.c',
   'T6', 'qtreetbl_byte_cmp', 'length tie-break through an unsigned difference (always positive)')
 M('c01-shared-counter-read', 'C01', 'src/containers/qtreetbl.c',
   "    _q_treetbl_flip_color_cnt++;\n", "    if ((++_q_treetbl_flip_color_cnt & 0xffff) == 0) obj->red = false;\n",
-  'G1', 'flip_color', 'the file-scope counter now steers the tree shape')
+  'GS1', 'flip_color', 'the file-scope counter now steers the tree shape')
 M('c13-shared-counter-read', 'C13', 'src/containers/qtreetbl.c',
   "    _q_treetbl_rotate_left_cnt++;\n", "    if ((++_q_treetbl_rotate_left_cnt & 0xffff) == 0) x->red = false;\n",
-  'G1', 'rotate_left', 'file-scope state read and written outside every container lock')
+  'GS1', 'rotate_left', 'file-scope state read and written outside every container lock')
 M('c11-borrowed-name-freed', 'C11', 'src/containers/qhashtbl.c',
   "    char *dupname = strdup(name);\n    void *dupdata = malloc(size);",
   "    char *dupname = (obj != NULL) ? obj->name : strdup(name);\n    void *dupdata = malloc(size);",
